@@ -28,11 +28,13 @@ def fieldsStr (f : Fields) : String :=
 def instLine (t : Int) : String :=
   let f := calcF t
   let mk := constructF f
-  let l := toUTCString .long t
-  let s := toUTCString .short t
-  let d := toUTCString .dateOnly t
-  let h := toUTCString .http t
-  let fu := toUTCString .full t
+  -- `toUTCString k t = fmtFields k (calcF t) (t % 1000).toNat` by definition; the fields are computed once
+  let ms := (t % 1000).toNat
+  let l := fmtFields .long f ms
+  let s := fmtFields .short f ms
+  let d := fmtFields .dateOnly f ms
+  let h := fmtFields .http f ms
+  let fu := fmtFields .full f ms
   s!"f={fieldsStr f} mk={timeStr mk} L={str l} S={str s} D={str d} H={str h} F={str fu} rt={resStr (parse l)} {resStr (parse s)} {resStr (parse h)} {resStr (parse fu)}"
 
 def fnv (h : UInt64) (s : String) : UInt64 :=
@@ -41,10 +43,10 @@ def fnv (h : UInt64) (s : String) : UInt64 :=
 def msOfDay (day : Int) : Int := (day * 7919) % 1000
 
 /-- hash over the instants `(day*86400 + sod)*1000 + msOfDay day`, `day = d0 .. d0+n-1` -/
-def scanHash (d0 : Int) (n : Nat) (sod : Int) : UInt64 := Id.run do
+def scanHash (d0 : Int) (n : Nat) (sod : Int) (st : Int) : UInt64 := Id.run do
   let mut h : UInt64 := 14695981039346656037
   for i in [0:n] do
-    let day := d0 + i
+    let day := d0 + st * i
     h := fnv h (instLine ((day * 86400 + sod) * 1000 + msOfDay day))
   return h
 
@@ -81,9 +83,18 @@ def step (_ : Unit) (ts : List String) : Unit × String :=
     | ["inst", a] => match a.toInt? with
       | some t => if inRange t then instLine t ++ " or=ok" else "range"
       | none => "bad-op"
-    | ["scan", a, n, s] => match a.toInt?, n.toNat?, s.toInt? with
-      | some d0, some n, some sod =>
-        if -719162 ≤ d0 && d0 + n ≤ 2932897 && n ≤ 100000 && 0 ≤ sod && sod < 86400 then s!"ok {scanHash d0 n sod}" else "range"
+    | ["scan", a, n, s, st] => match a.toInt?, n.toNat?, s.toInt?, st.toInt? with
+      | some d0, some n, some sod, some st =>
+        if 1 ≤ st && st ≤ 1000 && -719162 ≤ d0 && d0 + st * ((n : Int) - 1) ≤ 2932896 && n ≤ 100000 && 0 ≤ sod && sod < 86400
+        then s!"ok {scanHash d0 n sod st}" else "range"
+      | _, _, _, _ => "bad-op"
+    | ["oscan", a, n, s, st] => match a.toInt?, n.toNat?, s.toInt?, st.toInt? with
+      | some d0, some n, some sod, some st =>
+        if 1 ≤ st && st ≤ 1000 && -719162 ≤ d0 && d0 + st * ((n : Int) - 1) ≤ 2932896 && n ≤ 100000 && 0 ≤ sod && sod < 86400
+        then "ok" else "range"
+      | _, _, _, _ => "bad-op"
+    | ["osecs", a, s, n] => match a.toInt?, s.toInt?, n.toNat? with
+      | some day, some s0, some n => if dayInRange day && 0 ≤ s0 && s0 + n ≤ 86400 then "ok" else "range"
       | _, _, _ => "bad-op"
     | ["secs", a, s, n] => match a.toInt?, s.toInt?, n.toNat? with
       | some day, some s0, some n =>
